@@ -16,7 +16,7 @@ from sa.guards import GuardView
 from sa.index import AnalysisError
 from sa.report import Ctx
 from sa.stutter import flag_loops_without_exit, stutter_paths
-from sa.undefined import implicit_none_paths, iterables_consumed_twice, optional_truthiness, possibly_undefined, stride_conflicts, undefined_names, uninitialised_fields
+from sa.undefined import collection_params_rebound, implicit_none_paths, iterables_consumed_twice, optional_truthiness, possibly_undefined, stride_conflicts, undefined_names, uninitialised_fields
 
 HERE = os.path.dirname(os.path.dirname(os.path.abspath(__file__)))
 
@@ -219,6 +219,11 @@ def validators_used(ctx: Ctx, mods, oid: str):
 DEFAULT_SKIP_STUTTER = ("solvor/sat.py",)
 
 # confirmed by reading: the one numeric optional parameter whose 0 is meant to read like None
+# R50 is the default rule for input data nobody analyses more closely; where a property has a dedicated obligation on
+# how an input is normalised, that obligation decides and the rebinding is only noted here
+R50_ALLOWED: dict = {
+    ("solvor/sat.py", "solve_sat", "clauses"): "the clause list may be normalised (duplicate literals merged, tautologies dropped): C02-O9 decides whether a normalisation of it keeps the models",
+}
 R46_ALLOWED = {
     ("solvor/dlx.py", "solve_exact_cover", "max_solutions"): "max_solutions=0 and max_solutions=None both mean 'no limit on the number of covers'; the three tests are `max_solutions and len(solutions) >= max_solutions`",
 }
@@ -467,6 +472,21 @@ def generic_sweeps(ctx: Ctx, stutter: bool = True, skip_stutter_modules: tuple =
                 at = gvf.guard_atoms(s_.node, stable_only=False, after_loops=False)
                 ctx.ob(g + "10", "R43 TRIVIAL-ANSWER-GATE", f, f"the empty answer `Result({ast.unparse(sol)}, ...)` is given only for an empty or degenerate input", any(empt.match(a) for a in at), f"guards {sorted(at)}: none of them says the input is empty - a non-empty instance answered with the empty solution loses every item / node / variable of the input", node=s_.call)
     ctx.count("empty-answer sites (R43)", n_triv)
+    # R50: the solver works on the data it was given - a collection parameter is rebound only to a faithful copy
+    n_rebound = 0
+    for m in mods:
+        for q in sorted(m.funcs):
+            f = m.funcs[q]
+            if f.node.name.startswith("_") and f.node.name != "__init__":
+                continue  # private helpers rebind their working tables (tableau, state); the rule is about problem data
+            for pname, st in collection_params_rebound(f.node):
+                key = (m.rel, f.qualname, pname)
+                if key in R50_ALLOWED:
+                    ctx.ob(g + "15", "R50 PROBLEM-DATA-PASSTHROUGH", f, f"`{pname}` rebound", False, R50_ALLOWED[key], node=st, severity="note")
+                    continue
+                n_rebound += 1
+                ctx.ob(g + "15", "R50 PROBLEM-DATA-PASSTHROUGH", f, f"collection parameter `{pname}` is rebound only to an element- and order-preserving copy of itself", False, f"`{ast.unparse(st).splitlines()[0][:90]}`: from here on the routine solves a filtered, deduplicated or re-ordered instance - entries the caller gave (a second row with a tighter bound, an isolated node, a zero-demand task, a self-loop) no longer take part in the answer", node=st)
+    ctx.ob(g + "15", "R50 PROBLEM-DATA-PASSTHROUGH", None, "no public function of the anchor files replaces a collection parameter by a filtered or rebuilt version of it", n_rebound == 0, "", rel=mods[0].rel, fname="<anchor files>")
     infrastructure(ctx, g + "7")
     validators_used(ctx, mods, g + "7")
     ctx.count("functions swept (R31/R22)", n_funcs)
